@@ -623,6 +623,7 @@ func c03(c *Ctx) {
 			})
 		}
 	}
+	errorsExamined(c, "R6.errors-examined", "header proofs", []string{"validation", "history"}, "(validation.HeaderValidator).", "validation.TurnToPreMergeProof", "history.BuildProof")
 }
 
 func orNone(s string) string {
